@@ -959,3 +959,13 @@ VARIANTS += [
     dict(prop="C03", name="batch-first-record-off-by-one-batch", expect="PACK-slots|batch-origin",
          edits=[dict(file=DVF, find="                    .then(|| RecordId::from(batch_index * max_multiplications_per_gate));", replace="                    .then(|| RecordId::from((batch_index + 1) * max_multiplications_per_gate - max_multiplications_per_gate.min(batch_index)));")]),
 ]
+
+OSF = "ipa-core/src/helpers/buffers/ordering_sender.rs"
+VARIANTS += [
+    dict(prop="C14", name="waker-smallest-index-appended-at-back", expect="SORTED-wakers|sorted-insert",
+         edits=[dict(file=OSF, find="        self.wakers.insert(0, item);\n        Ok(())", replace="        self.wakers.push_back(item);\n        Ok(())")]),
+    dict(prop="C14", name="waker-inserted-before-smaller-entry", expect="SORTED-wakers|sorted-insert",
+         edits=[dict(file=OSF, find="                    self.wakers.insert(j + 1, item);", replace="                    self.wakers.insert(j, item);")]),
+    dict(prop="C14", name="wake-looks-in-shard-of-previous-index", expect="SORTED-wakers|same-shard-for-add-and-wake",
+         edits=[dict(file=OSF, find="    fn wake(&self, i: usize) {\n        self.shard(i).wake(i);", replace="    fn wake(&self, i: usize) {\n        self.shard(i.saturating_sub(1)).wake(i);")]),
+]
